@@ -24,12 +24,13 @@ const REQUIRED_NODE_KINDS: &[&str] = &[
 fn analyse(run: &MonRun, tally: &mut Tally, corrupt: Corrupt) -> Vec<Finding> {
     let mut per_node = vec![];
     let mut corrupted = false;
-    for node in &run.wrapped.nodes {
+    for (i, node) in run.wrapped.nodes.iter().enumerate() {
         let obs = observe(node);
+        let twin = run.twin.as_ref().and_then(|t| t.get(i));
         let has_exact = obs.complete && node_statistics(node, None).map(|s| matches!(s.num_rows, datafusion::common::stats::Precision::Exact(_))).unwrap_or(false);
         let c = Corrupt { on: corrupt.on && !corrupted && has_exact };
         corrupted |= c.on;
-        per_node.push(check_statistics(node, &obs, tally, c));
+        per_node.push(check_statistics(node, &obs, twin, tally, c));
     }
     report_origins(&run.wrapped.nodes, per_node, tally)
 }
@@ -301,7 +302,7 @@ fn run(args: &Args) -> i32 {
     }
     rep.obligation("rule-fired", rep.get_count("aggregate_statistics_rule_fired_fixture") >= 50, "the aggregate_statistics rule must have rewritten plans");
     vcommon::par::run(args.workers, 0..n_rand, |i| {
-        if rep.violation_count() > 40 || !rep.within_budget(70.0) {
+        if rep.violation_count() > 4000 || !rep.within_budget(args.tier.pick(70.0, 900.0)) {
             return;
         }
         match i % 6 {
